@@ -16,6 +16,8 @@ relative), the `safe` flag of the sources and a list of *arrangements* of the sa
   mixed        main file = some documents written inline, the others as top-level includes
   nested       main file = `key: !include [f1..fn]`
   nested_each  main file = n documents `key: !include fi`
+  nested_after main file = `key: <copy of the first included document>` --- `key: !include [f1..fn]`; the expectation is computed through
+               the API: the files built alone, the resulting tree placed under key as a stage after the first document
   nested_list  main file = `key: [!include [f1..fn], 5]`
   nested_unsafe main file = `key: !unsafe {in: !include [f1..fn]}`
   spread       main file = `!include [d1/inc1, .., dn/incn]` (or n documents `!include di/inci`), the includer di/inci = `!include <name i>`
@@ -56,7 +58,7 @@ VROOT = posixpath.join(VBASE, 'AYC06ROOT')          # virtual root: same depth a
 
 EQUAL_ARRS = ['sources', 'rawsep', 'inclist', 'inceach', 'chain']      # must agree exactly (tree and data)
 MASKED_ARRS = ['multidoc', 'mixed', 'spread']                           # agree up to file-relative path values
-NESTED_ARRS = ['nested', 'nested_each', 'nested_list', 'nested_unsafe', 'nested_spread']
+NESTED_ARRS = ['nested', 'nested_each', 'nested_list', 'nested_unsafe', 'nested_spread', 'nested_after']
 SPREAD_ARRS = ['spread', 'nested_spread']                               # own physical layout: one includer per file, each in its own directory
 ALL_ARRS = EQUAL_ARRS + MASKED_ARRS + NESTED_ARRS
 NEEDS_ALL_FILES = ['sources', 'rawsep', 'multidoc']                     # no include involved: nothing can be "missing"
@@ -207,6 +209,13 @@ def plan(case, arr, root):
             main = [wrap_keys(inc_raw(names), key)]
             miss = [names[j] for j in missing_groups]
             out['key'] = key
+        elif arr == 'nested_after':
+            # the key already holds content (a copy of the first included document) when `key: !include [..]` arrives
+            base = copy.deepcopy(docs[groups[0][0]]) if groups and groups[0] and found[0] is not None else M({})
+            main = [wrap_keys(base, key), wrap_keys(inc_raw(names), key)]
+            miss = [names[j] for j in missing_groups]
+            out['key'] = key
+            out['base'] = base
         elif arr == 'nested_each':
             main = [wrap_keys(inc_raw([nm]), key) for nm in names]
             miss = [names[j] for j in missing_groups[:1]]
@@ -367,6 +376,26 @@ def impl_arr(case, arr, world):
             except Exception as e:  # add_source failed (parsing error, top-level file missing)
                 c = classify_c06(e)
                 res = {'stages': c, 'tree': dict(c), 'cfg': dict(c, log=[])}
+        if arr == 'nested_after' and p.get('missing') is None and all(f is not None for f in p['found']):
+            # "`key: !include [..]` equals placing the merged content of those files under key": build the files alone,
+            # wrap the resulting tree under key with the node API and merge it as a stage after the first document
+            with WorldImpl(world) as w2:
+                try:
+                    inner = Builder()
+                    for f in p['found']:
+                        inner.add_source(f, raw_yaml=False, safe=case.get('safe'))
+                    node = inner.build() if inner.stages else ConfigDict({})
+                    for k in reversed(p['key']):
+                        node = ConfigDict({k: node})
+                    outer = Builder()
+                    outer.add_source(render_file([wrap_keys(p['base'], p['key'])], style), raw_yaml=True, filename=p['main_arg'], safe=case.get('safe'))
+                    outer.stages.append(node)
+                    cfg2 = Config(outer.build(), eval_ctx=EvalContext(eval_symbols=w2.syms))
+                    res['expected'] = {'ok': renumber(conv_val(cfg2, w2, {}))}
+                except RecursionError:
+                    res['expected'] = {'err': 'recursion'}
+                except Exception as e:  # noqa
+                    res['expected'] = classify_c06(e)
     finally:
         os.chdir(old)
         shutil.rmtree(real, ignore_errors=True)
@@ -743,6 +772,17 @@ class C06(Prop):
                     d = first_diff(strip_src(ref['tree']), strip_src(io[a]['tree']))
                     if d:
                         return f'arrangements {ref_a} and {a} of the same documents build different trees: ' + d
+        # (4b) the same when the key already holds content: expectation computed through the API (see impl_arr)
+        if 'nested_after' in arrs and 'expected' in io['nested_after']:
+            exp, got = io['nested_after']['expected'], io['nested_after']['cfg']
+            if 'ok' in exp:
+                if 'ok' not in got:
+                    return (f'[nested_after] placing the merged content of the files under {plans["nested_after"]["key"]} after the first document '
+                            f'builds, but `key: !include` fails: {json.dumps(outcome(got))[:160]}')
+                d = first_diff(mask_file_paths(strip_ids(exp['ok'])), mask_file_paths(strip_ids(got['ok'])))
+                if d:
+                    return ('[nested_after] `key: !include [..]` merged onto existing content differs from placing the merged content of '
+                            'those files under key: ' + d)
         # (4) `key: !include fs` = the merged content of fs placed under key
         base = io.get('inclist') or (io.get(ref_a) if ref_a else None)
         if base is not None:
